@@ -30,7 +30,7 @@ func (g *Graph) Gates(target *Site) []Gate {
 		if c == target.Block || !g.BlockDominates(c, target.Block) {
 			continue
 		}
-		avoid := map[*cfg.Block]bool{c: true}
+		avoid := g.iterationAvoid(c, target.Block)
 		t := c.Succs[0] == target.Block || g.Reach(c.Succs[0], target.Block, avoid)
 		f := c.Succs[1] == target.Block || g.Reach(c.Succs[1], target.Block, avoid)
 		if t != f {
@@ -165,4 +165,47 @@ func IsBuiltinCall(info *types.Info, call *ast.CallExpr, name string) bool {
 	}
 	b, ok := info.Uses[id].(*types.Builtin)
 	return ok && b.Name() == name
+}
+
+// iterationAvoid returns the blocks a "does this branch reach the target"
+// search must not pass through: the condition block itself, and the head/post
+// blocks of every loop whose body contains both the condition and the target —
+// a branch that reaches the target only by going round the loop again (e.g.
+// `if bad { continue }`) does not reach it in this iteration.
+func (g *Graph) iterationAvoid(c, target *cfg.Block) map[*cfg.Block]bool {
+	avoid := map[*cfg.Block]bool{c: true}
+	cp, tp := blockPos(c), blockPos(target)
+	if !cp.IsValid() || !tp.IsValid() {
+		return avoid
+	}
+	for _, b := range g.CFG.Blocks {
+		var body *ast.BlockStmt
+		switch b.Kind {
+		case cfg.KindForLoop, cfg.KindForPost, cfg.KindForBody:
+			if fs, ok := b.Stmt.(*ast.ForStmt); ok {
+				if b.Kind == cfg.KindForBody && (fs.Cond != nil || fs.Post != nil) {
+					continue // the head is a separate ForLoop/ForPost block
+				}
+				body = fs.Body
+			}
+		case cfg.KindRangeLoop:
+			if rs, ok := b.Stmt.(*ast.RangeStmt); ok {
+				body = rs.Body
+			}
+		}
+		if body == nil || b == target {
+			continue
+		}
+		if body.Pos() <= cp && cp < body.End() && body.Pos() <= tp && tp < body.End() {
+			avoid[b] = true
+		}
+	}
+	return avoid
+}
+
+func blockPos(b *cfg.Block) token.Pos {
+	if len(b.Nodes) > 0 {
+		return b.Nodes[0].Pos()
+	}
+	return token.NoPos
 }
